@@ -34,6 +34,8 @@ package streams
 //@   requires (s.numBuckets == 2 || s.numBuckets == 512) && len(s.streams) == int(s.numBuckets) && s.NumStreams == int(s.numBuckets)*64
 //@   atomic_inv s.streams[0] & (1<<63) != 0
 //@   atomic_inv s.offset < s.numBuckets
+//@   variant v12: s.numBuckets == 2
+//@   variant v345: s.numBuckets == 512
 //@   guarantee offset: new_val == (old_val + 1) % s.numBuckets
 //@   guarantee streams: (new_val ^ old_val) != 0 && (new_val ^ old_val) & ((new_val ^ old_val) - 1) == 0 && old_val & (new_val ^ old_val) == 0
 //@   guarantee inuseStreams: new_val == old_val + 1
